@@ -51,6 +51,7 @@ fn prepare_project(file_path: &str, output_dir: Option<&str>) -> CliResult<Prepa
     let deps: Vec<(&str, &Program)> = dep_modules.iter().map(|m| (m.name.as_str(), &m.ast)).collect();
 
     // Type check
+    check_dependency_modules(&modules)?;
     let mut checker = typechecker::TypeChecker::new();
     if let Err(errs) = checker.check_with_imports(&main_module.ast, &deps) {
         let mut msg = String::new();
@@ -389,6 +390,32 @@ pub fn parse_file(file_path: &str) -> CliResult<ExitCode> {
     }
 }
 
+/// Type check every dependency module of a project (the entry module, last in `modules`, is checked by the caller).
+///
+/// Each dependency is checked with the public declarations of the other dependency modules in scope, exactly as the
+/// entry module is; without this an ill-typed imported module is accepted and only fails later in rustc.
+fn check_dependency_modules(modules: &[ParsedModule]) -> CliResult<()> {
+    let dep_modules = &modules[..modules.len().saturating_sub(1)];
+    for (i, module) in dep_modules.iter().enumerate() {
+        let others: Vec<(&str, &Program)> = dep_modules
+            .iter()
+            .enumerate()
+            .filter(|(j, _)| *j != i)
+            .map(|(_, m)| (m.name.as_str(), &m.ast))
+            .collect();
+        let mut checker = typechecker::TypeChecker::new();
+        if let Err(errs) = checker.check_with_imports(&module.ast, &others) {
+            let display_path = format!("{}.incn", module.path_segments.join("/"));
+            let mut msg = String::new();
+            for err in &errs {
+                msg.push_str(&diagnostics::format_error(&display_path, &module.source, err));
+            }
+            return Err(CliError::failure(msg.trim_end()));
+        }
+    }
+    Ok(())
+}
+
 /// Type check a file.
 pub fn check_file(file_path: &str) -> CliResult<ExitCode> {
     let modules = collect_modules(file_path)?;
@@ -401,6 +428,8 @@ pub fn check_file(file_path: &str) -> CliResult<ExitCode> {
         .iter()
         .map(|m| (m.name.as_str(), &m.ast))
         .collect();
+
+    check_dependency_modules(&modules)?;
 
     let mut checker = typechecker::TypeChecker::new();
     match checker.check_with_imports(&main_module.ast, &deps) {
